@@ -3,6 +3,7 @@ use serde_json::Value as J;
 
 pub mod c01;
 pub mod c02;
+pub mod c03;
 pub mod c04;
 pub mod c05;
 pub mod c10;
@@ -10,12 +11,13 @@ pub mod c12;
 pub mod c19;
 pub mod common;
 
-pub const ALL: &[&str] = &["C01", "C02", "C04", "C05", "C10", "C12", "C19"];
+pub const ALL: &[&str] = &["C01", "C02", "C03", "C04", "C05", "C10", "C12", "C19"];
 
 pub fn run(prop: &str, ctx: &mut Ctx) -> bool {
     match prop {
         "C01" => c01::run(ctx),
         "C02" => c02::run(ctx),
+        "C03" => c03::run(ctx),
         "C04" => c04::run(ctx),
         "C05" => c05::run(ctx),
         "C10" => c10::run(ctx),
@@ -30,11 +32,23 @@ pub fn replay(prop: &str, kind: &str, case: &J, rec: &mut Rec) -> Verdict {
     match prop {
         "C01" => c01::replay(kind, case, rec),
         "C02" => c02::replay(kind, case, rec),
+        "C03" => c03::replay(kind, case, rec),
         "C04" => c04::replay(kind, case, rec),
         "C05" => c05::replay(kind, case, rec),
         "C10" => c10::replay(kind, case, rec),
         "C12" => c12::replay(kind, case, rec),
         "C19" => c19::replay(kind, case, rec),
         _ => Verdict::fail("infra:unknown-property", prop),
+    }
+}
+
+/// Child-process probes (`hv probe <name> ...`): returns the process exit code.
+pub fn probe(args: &[String]) -> i32 {
+    match args.first().map(|s| s.as_str()) {
+        Some("ladder") => c03::probe_ladder(&args[1..]),
+        _ => {
+            eprintln!("unknown probe {args:?}");
+            2
+        }
     }
 }
